@@ -74,7 +74,7 @@ m = {
   ],
   "checks": checks,
   "not_applicable": [{"property_id": k, "reason": v} for k, v in sorted(PENDING.items())],
-  "notes": "add_only=false: hook H7 splits the `use std::{io, net::{SocketAddr, UdpSocket}, time::Duration}` line of renet_netcode/src/{client,server}.rs into a cfg'd pair of imports (no other existing line is changed). Known findings and repaired defects: /verif/known_findings.txt. Exit codes: 0 held, 1 violation, 2 harness/build error.",
+  "notes": "add_only=false: hook H7 splits the `use std::{io, net::{SocketAddr, UdpSocket}, time::Duration}` line of renet_netcode/src/{client,server}.rs into a cfg'd pair of imports, and hook H8 routes the field type and constructor of RenetServer's connection table through a cfg'd type alias (seedable hasher); no other existing line is changed. Known findings and repaired defects: /verif/known_findings.txt. Exit codes: 0 held, 1 violation, 2 harness/build error.",
 }
 json.dump(m, open(os.path.join(ROOT, "MANIFEST.json"), "w"), indent=1)
 print("wrote MANIFEST.json with", len(checks), "checks;", len(PENDING), "not claimed")
